@@ -19,6 +19,8 @@ inductive Expr where
   | userAttr (slot : Option Nat) (k : Nat)        -- @slot.userK  (none = current item)
   | glyphAttr (slot : Option Nat) (a : Nat)       -- glyph attribute by internal id
   | feat (f : Nat)                                 -- feature by index in the Feat table
+  | slotNamed (slot : Option Nat) (name : String)  -- @slot.advance.x / shift.x / shift.y
+  | metric (slot : Option Nat) (name : String)     -- @slot.advancewidth
   | un (op : String) (e : Expr)
   | bin (op : String) (a b : Expr)
   | cond (c a b : Expr)
@@ -115,6 +117,7 @@ structure ProgIR where
   autoPseudo : Bool := true
   ignoreBad : Bool := false
   gattrValues : List (Nat × List Int) := []     -- (glyph, values of the IR's glyph attributes) - engine-level runs
+  advances : List Int := []                     -- advance width per glyph id (hmtx of the input font)
   numUser : Nat := 4
 deriving Inhabited
 
@@ -131,6 +134,8 @@ partial def parseExpr (j : Json) : Except String Expr := do
   | "user" => return .userAttr (← jOptNat (j.getObjValD "slot")) (← jNat (← j.getObjVal? "i"))
   | "gattr" => return .glyphAttr (← jOptNat (j.getObjValD "slot")) (← jNat (← j.getObjVal? "a"))
   | "feat" => return .feat (← jNat (← j.getObjVal? "f"))
+  | "slot" => return .slotNamed (← jOptNat (j.getObjValD "slot")) (← (← j.getObjVal? "name").getStr?)
+  | "metric" => return .metric (← jOptNat (j.getObjValD "slot")) (← (← j.getObjVal? "name").getStr?)
   | "un" => return .un (← (← j.getObjVal? "op").getStr?) (← parseExpr (← j.getObjVal? "e"))
   | "bin" => return .bin (← (← j.getObjVal? "op").getStr?) (← parseExpr (← j.getObjVal? "a")) (← parseExpr (← j.getObjVal? "b"))
   | "cond" => return .cond (← parseExpr (← j.getObjVal? "c")) (← parseExpr (← j.getObjVal? "a")) (← parseExpr (← j.getObjVal? "b"))
@@ -272,9 +277,11 @@ def parseProgIR (text : String) : Except String ProgIR := do
       if t.size != 2 then throw "bad-input: gattrValues entry"
       let vs ← (← t[1]!.getArr?).toList.mapM (·.getInt?)
       pure ((← jNat t[0]!), vs)
+  let adj := j.getObjValD "advances"
+  let advances ← if adj.isNull then pure [] else (← adj.getArr?).toList.mapM (·.getInt?)
   return {
     features, languages, nameStart, classRefs, autoPseudo, ignoreBad,
-    gattr, gattrValues,
+    gattr, gattrValues, advances,
     numGlyphs := ← jNat (← j.getObjVal? "numGlyphs"), numReal := ← jNat (← j.getObjVal? "numReal"),
     lb := ← jNat (← j.getObjVal? "lb"), phantom := ← jNat (← j.getObjVal? "phantom"),
     anyClass := ← jNat (← j.getObjVal? "anyClass"), classes, classDefs, passes }
